@@ -16,6 +16,7 @@ func init() {
 		Explain: "Decides the locking discipline that makes agent log delivery complete and ordered for any number of concurrent writers: GatedWriter's buffer and gate flag are written only with its lock held exclusively and read only with it held; opening the gate and draining the buffer to the underlying writer happen inside one exclusive critical section, so no later line can overtake a buffered one and no buffered append can race with another; the pass-through write happens with the lock held behind flush==true. The log ring (logs, index, handlers) is accessed only under its mutex; a new monitor is registered and replayed (oldest first: index..end when wrapped, then 0..index) inside one critical section that Write also takes. The monitor's own 512-entry channel dropping is not covered.",
 		Run:     runC29,
 		Mutants: []Mutant{
+			{Name: "no-backlog-when-index-zero", File: "cmd/serf/command/agent/log_writer.go", Func: "func (l *logWriter) RegisterHandler(", Old: "\tif l.logs[l.index] != \"\" {\n", New: "\tif l.index == 0 {\n\t\treturn\n\t}\n\tif l.logs[l.index] != \"\" {\n", Expect: "R2|RegisterHandler:replay-unconditional"},
 			{Name: "gated-write-under-rlock", File: "cmd/serf/command/agent/gated_writer.go", Func: "func (w *GatedWriter) Write(", Old: "\tw.lock.Lock()\n\tdefer w.lock.Unlock()\n", New: "\tw.lock.RLock()\n\tdefer w.lock.RUnlock()\n", Expect: "R1"},
 			{Name: "flush-drains-after-unlock", File: "cmd/serf/command/agent/gated_writer.go", Func: "func (w *GatedWriter) Flush(", Old: "\tw.lock.Lock()\n\tdefer w.lock.Unlock()\n\n\tw.flush = true\n", New: "\tw.lock.Lock()\n\tw.flush = true\n\tw.lock.Unlock()\n", Expect: "R1"},
 			{Name: "stale-gate-check", File: "cmd/serf/command/agent/gated_writer.go", Func: "func (w *GatedWriter) Write(", Old: "\tw.lock.Lock()\n\tdefer w.lock.Unlock()\n\n\tif w.flush {\n\t\treturn w.Writer.Write(p)\n\t}\n", New: "\tw.lock.RLock()\n\tif w.flush {\n\t\tdefer w.lock.RUnlock()\n\t\treturn w.Writer.Write(p)\n\t}\n\tw.lock.RUnlock()\n\tw.lock.Lock()\n\tdefer w.lock.Unlock()\n", Expect: "R1|Write:buffers-only-while-closed"},
@@ -235,6 +236,20 @@ func runC29(c *an.Ctx) {
 			}
 		}
 		c.Add(older != nil && newer != nil && !an.Reaches(rh, newer, older), "R2", "RegisterHandler:oldest-first", rh, "the older part is replayed before the newer part", "ordering (reachability)")
+		// nothing else decides whether the backlog is replayed (index == 0 also means "full ring just wrapped")
+		for _, r := range replays {
+			extra := ""
+			for _, f := range necessaryFacts(rh, r) {
+				switch {
+				case strings.HasPrefix(f.L, "phi@") && f.Op == "<" && (f.R == "len($0.logs)" || f.R == "$0.index"):
+				case f.L == "$0.logs[$0.index]" && f.Op == "!=" && f.R == `c:""`:
+				case strings.HasPrefix(f.L, "$0.handlers[$1]"):
+				default:
+					extra += f.String() + "; "
+				}
+			}
+			c.Add(extra == "", "R2", "RegisterHandler:replay-unconditional", r, "a new handler's replay depends only on the ring's own bounds and the wrapped-marker (other conditions: "+extra+")", "necessary-edge enumeration")
+		}
 		if reg != nil {
 			for _, r := range replays {
 				c.Add(an.Dominates(reg, r), "R2", "RegisterHandler:register-then-replay", r, "registration precedes the replay in the same critical section (no line falls between them)", "dominance")
